@@ -99,3 +99,38 @@ def const_of(it, node):
 def need(cond, msg):
     if not cond:
         raise AnalysisError(msg)
+
+
+# ---------------------------------------------------------------------------- single-assignment inlining
+def def_map(fnode):
+    """Names bound exactly once in the function by `name = expr` (simple target, not augmented, not a loop target)."""
+    counts, values = {}, {}
+    for n in walk_no_nested(fnode):
+        if isinstance(n, ast.Name) and isinstance(n.ctx, (ast.Store, ast.Del)):
+            counts[n.id] = counts.get(n.id, 0) + 1
+        if isinstance(n, ast.Assign) and len(n.targets) == 1 and isinstance(n.targets[0], ast.Name):
+            values[n.targets[0].id] = n.value
+        elif isinstance(n, ast.AnnAssign) and isinstance(n.target, ast.Name) and n.value is not None:
+            values[n.target.id] = n.value
+        elif isinstance(n, ast.AugAssign) and isinstance(n.target, ast.Name):
+            counts[n.target.id] = counts.get(n.target.id, 0) + 1
+    params = {a.arg for a in fnode.args.posonlyargs + fnode.args.args + fnode.args.kwonlyargs} if hasattr(fnode, 'args') else set()
+    return {k: v for k, v in values.items() if counts.get(k, 0) == 1 and k not in params}
+
+
+class _Expander(ast.NodeTransformer):
+    def __init__(self, defs, depth, keep):
+        self.defs, self.depth, self.keep = defs, depth, keep
+
+    def visit_Name(self, node):
+        if isinstance(node.ctx, ast.Load) and node.id in self.defs and node.id not in self.keep and self.depth > 0:
+            import copy
+            sub = copy.deepcopy(self.defs[node.id])
+            return _Expander(self.defs, self.depth - 1, self.keep).visit(sub)
+        return node
+
+
+def expand(node, defs, depth=3, keep=()):
+    """Copy of `node` with once-assigned local names replaced by their defining expressions."""
+    import copy
+    return ast.fix_missing_locations(_Expander(defs, depth, set(keep)).visit(copy.deepcopy(node)))
